@@ -91,7 +91,11 @@ func c07ViaBuilder(s *selgen.Sel) (selector.Selector, bool) {
 }
 
 func (c07) RunCase(c *fw.Ctx, rng *fw.RNG, batch, i int) {
-	g := graphgen.Gen(rng, graphgen.Opts{MaxBlocks: 8, MaxDepth: 3, MaxWidth: 4, RawBlocks: true, NumLookalikes: true, Missing: rng.Intn(2)})
+	gopts := graphgen.Opts{MaxBlocks: 8, MaxDepth: 3, MaxWidth: 4, RawBlocks: true, NumLookalikes: true, Missing: rng.Intn(2)}
+	if deepCase(c, i) {
+		gopts.MaxBlocks, gopts.MaxDepth, gopts.MaxWidth = 14, 4, 6
+	}
+	g := graphgen.Gen(rng, gopts)
 	s := selgen.Gen(rng, selgen.Opts{MaxDepth: 5, Keys: g.Keys, MaxIndex: g.MaxLen + 1, Links: g.Links()})
 	root, err := basicBuild(g.Root)
 	if err != nil {
